@@ -15,7 +15,8 @@ checks = [prop]
 if "--checks" in sys.argv:
     checks = sys.argv[sys.argv.index("--checks") + 1].split(",")
 tier = sys.argv[sys.argv.index("--tier") + 1] if "--tier" in sys.argv else "quick"
-wt = "/tmp/cs-wt"  # fixed path: sequential confirmations share build artefacts (target /tmp/cs-target, alt harness target)
+CSID = os.environ.get("CS_ID", "")
+wt = "/tmp/cs-wt" + CSID  # fixed path: sequential confirmations share build artefacts (target /tmp/cs-target, alt harness target)
 log = []
 
 
@@ -36,7 +37,7 @@ def cleanup():
 
 if "--final-cleanup" in sys.argv:
     subprocess.run(["git", "-C", "/repo", "worktree", "remove", "--force", wt])
-    for d in (wt, "/tmp/cs-target", "/verif/.target/alt-tmp_cs_wt", "/tmp/vf-alt-tmp_cs_wt", "/tmp/vf-alt-tmp_cs_wt-out"):
+    for d in (wt, "/tmp/cs-target" + CSID, "/verif/.target/alt-tmp_cs_wt" + CSID, "/tmp/vf-alt-tmp_cs_wt" + CSID, "/tmp/vf-alt-tmp_cs_wt" + CSID + "-out"):
         shutil.rmtree(d, ignore_errors=True)
     sys.exit(0)
 
@@ -50,7 +51,7 @@ rc, _ = run(["git", "-C", wt, "checkout", "-q", "--detach", head])
 assert rc == 0, log[-1]
 meta = {"seed_id": seed_id, "property": prop, "repo_head": subprocess.run(["git", "-C", "/repo", "rev-parse", "--short", "HEAD"], stdout=subprocess.PIPE, text=True).stdout.strip()}
 env = dict(os.environ)
-env["CARGO_TARGET_DIR"] = "/tmp/cs-target"
+env["CARGO_TARGET_DIR"] = "/tmp/cs-target" + CSID
 env["CARGO_NET_OFFLINE"] = "true"
 env.pop("RUSTFLAGS", None)
 demo = os.path.join(change_dir, "demo.sh")
@@ -83,7 +84,7 @@ if ok:
         meta["reject"] = "patch does not apply: " + out[-300:]
 # 3. baseline
 if ok and not skip_baseline:
-    rc, out = run(["/verif/tools/baseline_check.py", wt, "--target", "/tmp/cs-target", "--only-stable"], env=env, timeout=5400)
+    rc, out = run(["/verif/tools/baseline_check.py", wt, "--target", "/tmp/cs-target" + CSID, "--only-stable"], env=env, timeout=5400)
     meta["baseline_rc"] = rc
     meta["baseline_summary"] = [l for l in out.splitlines() if l.startswith("baseline") or "REGRESSION" in l][:10]
     if rc != 0:
